@@ -179,6 +179,7 @@ def run(check, an: Analysis):
                        'a normally ending body can still fail with the children\'s '
                        'failures')
     _scope.check_suppression(check, an, 'E')
+    _scope.check_foreign_signal_leaves_exit(check, an, 'E')
     prop = an.callee(SCOPE, '_propagate_exceptions')
     for path in an.paths(prop):
         for index, event in enumerate(path.events):
